@@ -381,5 +381,10 @@ def run(ctx, rep):
     prelude.r01h(ctx, rep)
     r01i(ctx, rep)
     r01j(ctx, rep)
+    from . import C02
+    borrow(ctx, rep, "R01k", "lexical addressing is part of evaluation: C02's rules on the binding map order (R02c), the scan working on "
+           "copies of the bound set (R02d), ENTER installing a per-activation environment (R02e) and load/store symmetry (R02b), "
+           "and C04's R04b on the frame surgery of TCALL, re-checked under C01.",
+           [C02.r02b, C02.r02c, C02.r02d, C02.r02e, C04.r04b], ["R02b", "R02c", "R02d", "R02e", "R04b"])
     rep.not_decided += ["values computed by any program (the property as stated)", "a handler that is present but wrong",
                         "the order in which the machine pops operands back (ENTER / VARARG arithmetic is value-level)"]
